@@ -577,3 +577,205 @@ def model_tie(ctx, env, om, n, corpus_cases=()):
                 bad += 1
                 if bad >= 5:
                     break
+
+
+# ----------------------------------------------------------------------------- freeze / Function.slice / join with a Lean model
+# (Model/OpAlg.lean: freeze, Fn.slice, Fn.join; theorems C05_freeze_slice_join, C12_freeze_meta, C12_function_meta)
+
+BLOCK_SHAPES = [[[1], [1]], [[2], [1]], [[1], [1, 2]], [[2], [3]], [[1], [2], [1]], [[2], [1], [1, 2]], [[1], [1], [1], [2]]]
+
+
+def gen_freeze_case(rng, thorough=False):
+    import opalg_trees as T
+
+    one = str(rng.choice(G.DTS, p=[0.1, 0.45, 0.1, 0.35]))
+    dt_of = (lambda: one) if rng.random() < 0.85 else (lambda: str(rng.choice(G.DTS)))
+    insh = BLOCK_SHAPES[int(rng.integers(len(BLOCK_SHAPES)))] if rng.random() < 0.93 else [3]
+    outsh = [int(rng.integers(1, 4))]
+    if rng.random() < 0.15:
+        outsh = insh  # allows Diagonal / Identity on block shapes
+    e = T.tree(rng, int(rng.choice([1, 1, 2, 3] if thorough else [1, 1, 2])), insh, outsh, dt_of, p_bad=0.0)
+    N = len(insh) if G.is_nested(insh) else 1
+    k = int(rng.integers(-N - 1, N + 1))
+    p = k + N if k < 0 else k
+    blk = insh[p] if (G.is_nested(insh) and 0 <= p < N) else [2]
+    vsh = list(blk) if rng.random() < 0.9 else list(blk) + [1]
+    vdt = one if rng.random() < 0.9 else str(rng.choice(G.DTS))
+    return {"e": e, "k": k, "vsh": vsh, "vdt": vdt, "val": G.encs(vals(rng, (G.size(vsh),), G.is_cplx(vdt)))}
+
+
+def observe_freeze(env, case, xs):
+    try:
+        o = env.build(case["e"])
+        v = env.to_array(G.decs(case["val"]), case["vsh"], case["vdt"])
+        F = o.freeze(case["k"], v)
+    except Exception as ex:  # noqa: BLE001
+        return ("err", common.err_kind(ex), repr(ex)[:200])
+    return _observe_op(env, F, xs)
+
+
+def _observe_op(env, F, xs):
+    r = {"in_shape": G.lst(F.input_shape), "out_shape": G.lst(F.output_shape), "in_dtype": np.dtype(F.input_dtype).name,
+         "out_dtype": np.dtype(F.output_dtype).name, "matrix_shape": [int(v) for v in F.matrix_shape], "cls": type(F).__name__}
+    ev, evdt = [], None
+    for x in xs:
+        try:
+            y = F(env.to_array(x, r["in_shape"], r["in_dtype"]))
+            ev.append(env.flat(y))
+            evdt = np.dtype(y.dtype).name
+            if G.lst(y.shape) != r["out_shape"]:
+                evdt = "shape:" + str(G.lst(y.shape))
+        except Exception as ex:  # noqa: BLE001
+            ev.append(("err", common.err_kind(ex), repr(ex)[:160]))
+            evdt = "err:" + common.err_kind(ex)
+    r["eval"], r["eval_dt"] = ev, evdt
+    return ("ok", r, F)
+
+
+def gen_fn_case(rng):
+    N = int(rng.integers(1, 4))
+    shapes = [[int(rng.integers(1, 4))] if rng.random() < 0.7 else [int(rng.integers(1, 3)), int(rng.integers(1, 3))] for _ in range(N)]
+    one = str(rng.choice(["float64", "complex128", "float32"], p=[0.5, 0.35, 0.15]))
+    dts = [one if rng.random() < 0.85 else str(rng.choice(G.DTS)) for _ in range(N)]
+    gdt = "float64" if rng.random() < 0.6 else one
+    m = int(rng.integers(1, 4))
+    Gs = [G.encs(vals(rng, (m * G.size(s),), G.is_cplx(gdt))) for s in shapes]
+    mode = "slice" if rng.random() < 0.7 else "join"
+    k = int(rng.integers(-N - 1, N + 1))
+    p = k + N if k < 0 else k
+    rest = [i for i in range(N) if i != p] if 0 <= p < N else list(range(N - 1))
+    fix = [G.encs(vals(rng, (G.size(shapes[i]),), G.is_cplx(dts[i]))) for i in rest]
+    return {"shapes": shapes, "dts": dts, "gdt": gdt, "m": m, "Gs": Gs, "mode": mode, "k": k, "fix": fix,
+            "fixdts": [dts[i] for i in rest], "fixsh": [shapes[i] for i in rest]}
+
+
+def observe_fn(env, case, xs):
+    from scico.function import Function
+
+    jnp = env.jnp
+    m = case["m"]
+    Gj = [jnp.asarray((G.decs(g) if G.is_cplx(case["gdt"]) else G.decs(g).real).reshape(m, G.size(s)), dtype=case["gdt"])
+          for g, s in zip(case["Gs"], case["shapes"])]
+    outdt = jnp.result_type(np.dtype(case["gdt"]), *[np.dtype(d) for d in case["dts"]])
+    try:
+        Fn = Function(tuple(tuple(s) for s in case["shapes"]), output_shape=(m,),
+                      eval_fn=lambda *a: sum(Gp @ ap.ravel() for Gp, ap in zip(Gj, a)),
+                      input_dtypes=tuple(np.dtype(d) for d in case["dts"]), output_dtype=outdt)
+        if case["mode"] == "slice":
+            fix = [env.to_array(G.decs(v), s, d) for v, s, d in zip(case["fix"], case["fixsh"], case["fixdts"])]
+            F = Fn.slice(case["k"], *fix)
+        else:
+            F = Fn.join()
+    except Exception as ex:  # noqa: BLE001
+        kind = common.err_kind(ex)
+        return ("err", "other" if kind == "index" else kind, repr(ex)[:200])
+    return _observe_op(env, F, xs)
+
+
+def _model_call(om, op, case, xs):
+    try:
+        r = om.call(op, xs=[G.encs(x) for x in xs], **case)
+    except common.ModelErr as ex:
+        return ("err", ex.kind)
+    r["eval"] = [G.decs(v) for v in r["eval"]]
+    return ("ok", r)
+
+
+def _compare_op(impl, mod, tol):
+    diffs = []
+    if impl[0] == "err" or mod[0] == "err":
+        if impl[0] != mod[0]:
+            diffs.append(("constructible", list(impl[:2]), list(mod[:2])))
+        elif impl[1] != mod[1]:
+            diffs.append(("error-kind", impl[1], mod[1]))
+        return diffs
+    a, b = impl[1], mod[1]
+    for k in ("in_shape", "out_shape", "in_dtype", "out_dtype", "matrix_shape", "cls"):
+        if a[k] != b[k]:
+            diffs.append((k, a[k], b[k]))
+    if diffs:
+        return diffs
+    if a["eval_dt"] is not None and a["eval_dt"] != b["eval_dt"]:
+        diffs.append(("eval_dt", a["eval_dt"], b["eval_dt"]))
+    kk = max(4, a["matrix_shape"][0] * a["matrix_shape"][1])
+    for i, (u, v) in enumerate(zip(a["eval"], b["eval"])):
+        if isinstance(u, tuple):
+            continue
+        if not G.vec_close(u, v, tol, kk):
+            diffs.append((f"eval[{i}]", [complex(z) for z in u], [complex(z) for z in v]))
+            break
+    return diffs
+
+
+def freeze_tie(ctx, env, om, n):
+    """correspondence of the Lean model of freeze / Function.slice / Function.join with the real objects"""
+    import json
+
+    bad = 0
+    for i in range(n):
+        if i % 2 == 0:
+            case = gen_freeze_case(ctx.rng, ctx.thorough)
+            what, obs, op = "freeze", observe_freeze, "freeze"
+            tol = G.tol_of(case["e"]) * (10 if G.has_nonlin(case["e"]) else 1)
+            if G.is32(case["vdt"]):
+                tol = max(tol, 2e-4)
+            checkable = G.kind_uniform(case["e"]) or not G.uses_adjoint(case["e"])
+            key = ("freeze", case["k"], str(case["vsh"]), case["vdt"], G.skeleton(case["e"]))
+        else:
+            case = gen_fn_case(ctx.rng)
+            what, obs, op = "Function." + case["mode"], observe_fn, "fn"
+            tol = 2e-4 if any(G.is32(d) for d in case["dts"] + [case["gdt"]]) else 1e-9
+            checkable = True
+            key = ("fn", case["mode"], case["k"], str(case["shapes"]), str(case["dts"]), case["gdt"], case["m"])
+        impl = obs(env, case, [])
+        xs = []
+        if impl[0] == "ok":
+            n_ = impl[1]["matrix_shape"][1]
+            xs = [vals(ctx.rng, (n_,), G.is_cplx(impl[1]["in_dtype"])).astype(np.complex128) for _ in range(2)]
+            impl = obs(env, case, xs)
+        mcase = {k: v for k, v in case.items() if k != "fixsh"}
+        mod = _model_call(om, op, mcase, xs)
+        if not checkable and impl[0] == "ok" and mod[0] == "ok":
+            impl[1]["eval"], mod[1]["eval"] = [], []
+        diffs = _compare_op(impl, mod, tol)
+        ctx.case({"what": what, "key": str(key)[:200]}, key, sample_every=150)
+        ctx.count(what + (":rejected:" + impl[1] if impl[0] == "err" else ":ok"))
+        if impl[0] == "ok":
+            ctx.count(what + ":in=" + ("block" if G.is_nested(impl[1]["in_shape"]) else "plain"))
+            if what == "freeze":
+                ctx.count("freeze:index" + ("<0" if case["k"] < 0 else ">=0"))
+        if diffs:
+            d = diffs[0]
+
+            def orc(c, impl=impl, d=d, what=what, case=case):
+                # the property on the implementation: an accepted object evaluates on its declared input and returns the
+                # declared output shape and dtype; freeze(k, v) declares the remaining blocks (k counted from the end if < 0)
+                if impl[0] != "ok":
+                    return None
+                info, F = impl[1], impl[2]
+                decl = {k: info[k] for k in ("in_shape", "out_shape", "in_dtype", "out_dtype")}
+                try:
+                    y = F(env.to_array(np.ones(G.size(info["in_shape"])), info["in_shape"], info["in_dtype"]))
+                except Exception as ex:  # noqa: BLE001
+                    return {"what": what, "declared": decl, "x": "ones(declared input)", "evaluation_raised": repr(ex)[:200]}
+                if G.lst(y.shape) != info["out_shape"] or np.dtype(y.dtype).name != info["out_dtype"]:
+                    return {"what": what, "declared": decl, "x": "ones(declared input)", "returned": [G.lst(y.shape), np.dtype(y.dtype).name]}
+                if what == "freeze":
+                    try:
+                        bs = G.lst(env.build(case["e"]).input_shape)
+                    except Exception:  # noqa: BLE001
+                        return None
+                    if G.is_nested(bs) and -len(bs) <= case["k"] < len(bs):
+                        p_ = case["k"] % len(bs)
+                        rest = [b for i, b in enumerate(bs) if i != p_]
+                        want = rest[0] if len(rest) == 1 else rest
+                        if info["in_shape"] != want:
+                            return {"what": "freeze", "argnum": case["k"], "operand_input_shape": bs, "declared_input_shape": info["in_shape"],
+                                    "documented_remaining_blocks": want}
+                return None
+
+            ctx.disagree("opalg." + what + ":" + d[0], {"case": json.loads(json.dumps(case))}, json.loads(json.dumps(d[1], default=str)),
+                         json.loads(json.dumps(d[2], default=str)), oracle=orc)
+            bad += 1
+            if bad >= 5:
+                break
